@@ -17,7 +17,7 @@ for d in sorted(glob.glob("/verif/seeded/C*-*")):
     if mm: rule = mm.group(1)
     if not rule and "regression" in own.get("what", ""): rule = "regression replay of a fixed finding"
     runm = re.search(r"violation in run (\d+)", own.get("what", ""))
-    rows.append((m["id"], ", ".join(os.path.basename(f) for f in files), "yes" if own.get("detected") else "NO", rule, runm.group(1) if runm else "-", f'{own.get("wall_s","")}'))
+    rows.append((m["id"], ", ".join(os.path.basename(f) for f in files), "yes" if own.get("detected") else "**no** (see meta.json note)", rule, runm.group(1) if runm else "-", f'{own.get("wall_s","")}'))
 out = ["<!-- BEGIN SENSITIVITY -->", "",
        "| seeded change | file(s) | caught by its property's quick check | rule that fired | failing run index | wall s |",
        "|---|---|---|---|---|---|"]
